@@ -18,10 +18,13 @@
      c21_stage_ensure_valid  what StageResponse.ensureValid accepts
      c21_transition_results  results / problems / missing-files flag
      c21_equivalence_partial every sequence of Scan/Stage/Transition
-   The last one carries the hypothesis [known_c21 read_only o = false]: on a
-   read-only endpoint, Stage with an empty path list fails locally and
-   "succeeds" remotely (c21_readonly_empty_stage_refuted); outside that class
-   the equivalence is proved.
+   The last one carries the hypothesis [known_c21 fixed read_only o = false]:
+   with the code as it is ([fixed] = false), on a read-only endpoint Stage with
+   an empty path list fails locally and "succeeds" remotely
+   (c21_readonly_empty_stage_refuted); outside that class the equivalence is
+   proved, and for the code as it would be after the proposed repair of
+   local/endpoint.go ([fixed] = true) it is proved without exception
+   (c21_equivalence_fixed).
 
    NOT proved (validated by the harness goharness/cmd/remote only): the
    concurrency of the completion requests (Scan/Transition/Poll send a
@@ -194,7 +197,8 @@ Proof. exact (trans_valid_iff result problem result_valid problem_valid). Qed.
 Definition full_statement : Prop :=
   forall (read_only : bool) (St : Type)
          (E : endpoint snapshot pathT digestT fsig result problem change St),
-    endpoint_ok marshal snap_valid fsig_valid result_valid problem_valid change_valid read_only E ->
+    endpoint_ok marshal snap_valid fsig_valid result_valid problem_valid change_valid
+                false read_only E ->
     forall ops st last,
       Forall (op_wf marshal of_ancestor change_valid) ops ->
       Forall2 same_outcome_prop (local_run E st ops)
@@ -214,12 +218,13 @@ Definition full_statement : Prop :=
    try-again flag) -- PROVIDED no operation is in the known class
    (Stage with no paths on a read-only endpoint). *)
 Theorem c21_equivalence_partial :
-  forall (read_only : bool) (St : Type)
+  forall (fixed read_only : bool) (St : Type)
          (E : endpoint snapshot pathT digestT fsig result problem change St),
-    endpoint_ok marshal snap_valid fsig_valid result_valid problem_valid change_valid read_only E ->
+    endpoint_ok marshal snap_valid fsig_valid result_valid problem_valid change_valid
+                fixed read_only E ->
     forall ops st last,
       Forall (op_wf marshal of_ancestor change_valid) ops ->
-      Forall (fun o => known_c21 read_only o = false) ops ->
+      Forall (fun o => known_c21 fixed read_only o = false) ops ->
       Forall2 same_outcome_prop (local_run E st ops)
               (remote_run marshal unmarshal sig_of deltify patch of_ancestor content_nil
                           snap_valid delta_valid delta_empty delta_nil fsig_valid
@@ -231,6 +236,29 @@ Proof.
                              delta_nil pathT digestT fsig fsig_valid result problem change
                              result_valid problem_valid change_valid marshal_roundtrip
                              c19_patch_deltify deltify_valid delta_nil_valid delta_nil_empty).
+Qed.
+
+(* The same for the code after the proposed repair (argument checks before
+   the read-only refusal in local/endpoint.go Stage): no exception. *)
+Theorem c21_equivalence_fixed :
+  forall (read_only : bool) (St : Type)
+         (E : endpoint snapshot pathT digestT fsig result problem change St),
+    endpoint_ok marshal snap_valid fsig_valid result_valid problem_valid change_valid
+                true read_only E ->
+    forall ops st last,
+      Forall (op_wf marshal of_ancestor change_valid) ops ->
+      Forall2 same_outcome_prop (local_run E st ops)
+              (remote_run marshal unmarshal sig_of deltify patch of_ancestor content_nil
+                          snap_valid delta_valid delta_empty delta_nil fsig_valid
+                          result_valid problem_valid change_valid E
+                          {| cl_last := last; sv_alive := true; sv_state := st |} ops).
+Proof.
+  exact (session_equivalence_fixed snapshot ancestor bytes sgn delta marshal unmarshal sig_of
+                                   deltify patch of_ancestor content_nil snap_valid delta_valid
+                                   delta_empty delta_nil pathT digestT fsig fsig_valid result
+                                   problem change result_valid problem_valid change_valid
+                                   marshal_roundtrip c19_patch_deltify deltify_valid
+                                   delta_nil_valid delta_nil_empty).
 Qed.
 
 (* ---------------------------------------------------------------- checker *)
@@ -259,12 +287,13 @@ Qed.
 
 (* The model's own output passes the checker. *)
 Theorem c21_model_passes_check :
-  forall (read_only : bool) (St : Type)
+  forall (fixed read_only : bool) (St : Type)
          (E : endpoint snapshot pathT digestT fsig result problem change St),
-    endpoint_ok marshal snap_valid fsig_valid result_valid problem_valid change_valid read_only E ->
+    endpoint_ok marshal snap_valid fsig_valid result_valid problem_valid change_valid
+                fixed read_only E ->
     forall ops st last,
       Forall (op_wf marshal of_ancestor change_valid) ops ->
-      Forall (fun o => known_c21 read_only o = false) ops ->
+      Forall (fun o => known_c21 fixed read_only o = false) ops ->
       check_c21 snapshot_eqb path_eqb fsig_eqb result_eqb problem_eqb
                 (local_run E st ops)
                 (remote_run marshal unmarshal sig_of deltify patch of_ancestor content_nil
@@ -284,15 +313,15 @@ Qed.
 
 End C21.
 
-(* The known finding: on a read-only endpoint whose Stage begins exactly as
-   local/endpoint.go's does, Stage with no paths and no digests fails when the
+(* The known finding (code as it is): on a read-only endpoint whose Stage
+   begins exactly as local/endpoint.go's does, Stage with no paths and no digests fails when the
    endpoint is used directly and reports "nothing to stage" through client
    and server; the operation is in the class [known_c21]. *)
 Theorem c21_readonly_empty_stage_refuted :
   ro_local = [ResStage (GErr (ERemote "endpoint is in read-only mode"))]
   /\ ro_remote = [ResStage (GOk [] [])]
   /\ known_c21 (ancestor := unit) (pathT := unit) (digestT := unit) (change := unit)
-               true (OpStage [] []) = true.
+               false true (OpStage [] []) = true.
 Proof. exact readonly_empty_stage_diverges. Qed.
 
 (* Non-vacuity: the hypotheses are satisfiable together, on a history that
@@ -339,6 +368,7 @@ Print Assumptions c21_transition_results.
 Print Assumptions c21_transition_error.
 Print Assumptions c21_transition_ensure_valid.
 Print Assumptions c21_equivalence_partial.
+Print Assumptions c21_equivalence_fixed.
 Print Assumptions c21_check_sound.
 Print Assumptions c21_model_passes_check.
 Print Assumptions c21_readonly_empty_stage_refuted.
